@@ -14,10 +14,31 @@
 //!     function so that lookups resolve through HET/BET (bit-packed entry extraction).
 //! "v3-asbuilt" keeps the builder's output untouched. "v1-userdata" is a builder archive behind a
 //! hand-made 512-byte 'MPQ\x1B' user-data block (the builder cannot write one).
+//! (On the current /repo the builder writes the positions in the reader's order, so the first fix-up
+//! changes nothing any more; it is kept because it is idempotent.)
+//!
+//! Variants the builder offers and that have a seed of their own: no (listfile) (anonymous
+//! enumeration through the hash table, "v1-nolistfile", and through HET/BET, "v4-nolistfile"),
+//! (attributes) with all arrays (GenerateFull; an External file written by `Attributes::to_bytes`
+//! with the patch bits and an entry for itself), files under a non-neutral locale ("v1-bzip2"),
+//! two-stage codecs ADPCM + zlib / bzip2 / sparse ("v1-codecs"), compressed HET/BET bodies
+//! ("v4-cmptables" with the sparse codec, "v3-cmptables" with zlib: the builder keeps a body raw
+//! unless the codec shrinks it).
+//! Hand-made parts, each marked where it is made, because the builder cannot produce them:
+//!   * "v3-hdr208": the V4 archive with format_version 2 (V3 archives with 208-byte headers exist),
+//!   * "v1-scan-offset": 1024 bytes in front of the archive (text, then a user-data block that does
+//!     not lead to a header): the header is found by the 0x200 scan, without user data,
+//!   * "v2-hiblock-signed": a hi-block table behind the block table, and the "(signature)" file
+//!     filled by the crate's `generate_weak_signature`,
+//!   * in "v1-codecs": a stored single-unit file with COMPRESS set afterwards (compressed size ==
+//!     file size) and a hand-made Huffman unit (the crate has no Huffman encoder),
+//!   * fixed FILETIME values in the GenerateFull (attributes) file (the builder stamps the clock).
 use crate::seed::{Aux, Enc, Seed};
 use crate::worker::{errname, Runner};
 use wow_mpq::compression::flags as cf;
 use wow_mpq::crypto::{decrypt_block, encrypt_block, hash_string, hash_type, het_hash};
+use wow_mpq::crypto::{generate_weak_signature, SignatureInfo};
+use wow_mpq::special_files::{AttributeFlags, Attributes, FileAttributes};
 use wow_mpq::{Archive, ArchiveBuilder, AttributesOption, FormatVersion, ListfileOption};
 
 /// Register the ADPCM code-byte stream of one compressed unit `[method_pos, end)` as a token site: method byte
@@ -48,7 +69,19 @@ pub fn seed_names(thorough: bool) -> Vec<String> {
         "v1-codecs".to_string(),
     ];
     if thorough {
-        for n in ["v3-hetbet", "v3-asbuilt", "v1-bzip2", "v4-cmptables", "v1-pkware-asbuilt"] {
+        for n in [
+            "v3-hetbet",
+            "v3-asbuilt",
+            "v1-bzip2",
+            "v4-cmptables",
+            "v1-pkware-asbuilt",
+            "v1-nolistfile",
+            "v4-nolistfile",
+            "v3-hdr208",
+            "v3-cmptables",
+            "v1-scan-offset",
+            "v2-hiblock-signed",
+        ] {
             v.push(n.to_string());
         }
     }
@@ -103,6 +136,13 @@ fn wave(n: usize) -> Vec<u8> {
     v
 }
 
+/// a single-unit Huffman payload: method byte 0x01, tree type, `n` bytes of code bits
+fn huffman_unit(tree: u8, n: usize) -> Vec<u8> {
+    let mut v = vec![cf::HUFFMAN, tree];
+    v.extend_from_slice(&noise(n, 46));
+    v
+}
+
 // ------------------------------------------------------------------------------------------
 // seed specifications
 // ------------------------------------------------------------------------------------------
@@ -119,20 +159,75 @@ struct F {
     data: Vec<u8>,
     comp: u8,
     crypt: Crypt,
+    locale: u16,
+    /// block-entry surgery after the build: OR these bits into the flags of the file's block entry
+    or_flags: u32,
+    /// block-entry surgery after the build: the file size of the block entry (the data handed to the builder is
+    /// an already encoded unit, stored as it is)
+    set_fsize: Option<u32>,
 }
 
 fn f(name: &'static str, data: Vec<u8>, comp: u8, crypt: Crypt) -> F {
-    F { name, data, comp, crypt }
+    F { name, data, comp, crypt, locale: 0, or_flags: 0, set_fsize: None }
+}
+
+/// a file stored under a non-neutral locale
+fn fl(name: &'static str, data: Vec<u8>, comp: u8, locale: u16) -> F {
+    F { name, data, comp, crypt: Crypt::No, locale, or_flags: 0, set_fsize: None }
+}
+
+impl F {
+    /// name used in field names and nowhere else: the archive name, with the locale when it is not neutral
+    fn display(&self) -> String {
+        if self.locale != 0 {
+            format!("{}@{:x}", self.name, self.locale)
+        } else {
+            self.name.to_string()
+        }
+    }
+}
+
+#[derive(Clone, Copy, PartialEq)]
+enum Attrs {
+    No,
+    /// AttributesOption::GenerateCrc32: CRC32 array, one entry per block except (attributes) itself
+    Crc,
+    /// AttributesOption::GenerateFull: CRC32 + FILETIME + MD5, one entry per block except (attributes) itself
+    Full,
+    /// AttributesOption::External with a file written by the crate's `Attributes::to_bytes`: all four arrays
+    /// (CRC32, FILETIME, MD5, PATCH_BIT), one entry per block INCLUDING (attributes) itself
+    ExternalAll,
+}
+
+#[derive(Clone, Copy, PartialEq)]
+enum Prefix {
+    No,
+    /// 512-byte 'MPQ\x1B' user data block whose header_offset points at the archive
+    UserData,
+    /// 1024 bytes in front of the archive: 512 bytes that are no signature at all, then a 'MPQ\x1B' block whose
+    /// header_offset points at something that is not an archive header: the 0x200 scan has to walk on twice
+    Scan,
 }
 
 struct Spec {
     ver: FormatVersion,
     shift: u16,
     files: Vec<F>,
-    attrs: bool,
+    attrs: Attrs,
+    listfile: bool,
     compress_tables: bool,
-    userdata: bool,
+    /// codec for the HET/BET bodies when compress_tables is set. The builder keeps a body raw when the codec does
+    /// not shrink it; with zlib that is the case for most small tables, the sparse codec always shrinks them.
+    table_comp: u8,
+    prefix: Prefix,
     fix_hetbet: bool,
+    /// built as V4, then format_version := 2: a V3 archive whose 208-byte header carries the V4 fields
+    hdr_v3: bool,
+    /// append a hi-block table (all zero) and point the header at it (the builder only writes one for
+    /// archives beyond 4 GiB)
+    hiblock: bool,
+    /// fill the 72-byte "(signature)" file with the weak signature of the finished archive
+    sign: bool,
     /// list every block entry (otherwise the first two and the last)
     all_blocks: bool,
 }
@@ -157,17 +252,22 @@ fn spec(name: &str) -> Spec {
         ver: FormatVersion::V1,
         shift: 0,
         files: Vec::new(),
-        attrs: false,
+        attrs: Attrs::No,
+        listfile: true,
         compress_tables: false,
-        userdata: false,
+        table_comp: cf::ZLIB,
+        prefix: Prefix::No,
         fix_hetbet: false,
+        hdr_v3: false,
+        hiblock: false,
+        sign: false,
         all_blocks: false,
     };
     match name {
         "v1-zlib-mixed" => Spec { files: mixed_files(cf::ZLIB), all_blocks: true, ..base },
         "v2-crc-attrs" => Spec {
             ver: FormatVersion::V2,
-            attrs: true,
+            attrs: Attrs::Crc,
             files: vec![
                 f("big.bin", text(2100, 11), cf::ZLIB, Crypt::No),
                 f("small.txt", text(280, 12), cf::ZLIB, Crypt::No),
@@ -190,8 +290,9 @@ fn spec(name: &str) -> Spec {
         "v4-hetbet" | "v4-cmptables" => Spec {
             ver: FormatVersion::V4,
             fix_hetbet: true,
-            attrs: name == "v4-hetbet",
+            attrs: if name == "v4-hetbet" { Attrs::Crc } else { Attrs::No },
             compress_tables: name == "v4-cmptables",
+            table_comp: cf::SPARSE,
             files: vec![
                 f("big.bin", text(2200, 31), cf::ZLIB, Crypt::No),
                 f("small.txt", text(270, 32), cf::ZLIB, Crypt::No),
@@ -201,7 +302,16 @@ fn spec(name: &str) -> Spec {
             ],
             ..base
         },
-        "v1-bzip2" => Spec { shift: 1, files: mixed_files(cf::BZIP2), ..base },
+        "v1-bzip2" => {
+            // hash entries with a locale: "loc.txt" first under 0x409, then neutral (the probe passes the
+            // non-neutral entry and returns the neutral one); "onlyloc.txt" exists under 0x407 only (the
+            // lookup falls back to the first entry of that name)
+            let mut files = mixed_files(cf::BZIP2);
+            files.push(fl("loc.txt", text(210, 9), cf::BZIP2, 0x409));
+            files.push(f("loc.txt", text(190, 10), cf::BZIP2, Crypt::No));
+            files.push(fl("onlyloc.txt", text(170, 11), 0, 0x407));
+            Spec { shift: 1, files, ..base }
+        }
         "v1-codecs" => Spec {
             shift: 1,
             all_blocks: true,
@@ -212,6 +322,19 @@ fn spec(name: &str) -> Spec {
                 f("adpcm-mono.wav", wave(2200), cf::ADPCM_MONO, Crypt::No),
                 f("adpcm-stereo.wav", wave(900), cf::ADPCM_STEREO, Crypt::No),
                 f("adpcm-zlib.wav", wave(2100), cf::ADPCM_MONO | cf::ZLIB, Crypt::No),
+                // further two-stage units the crate's compress() can write (it has no Huffman encoder):
+                // 0x50 bzip2 stage (bounded variant), 0x60 sparse stage, 0x82 stereo behind zlib
+                f("adpcm-bzip2.wav", wave(2300), cf::ADPCM_MONO | cf::BZIP2, Crypt::No),
+                f("adpcm-sparse.wav", wave(1900), cf::ADPCM_MONO | cf::SPARSE, Crypt::No),
+                f("adpcm-stereo-zlib.wav", wave(2000), cf::ADPCM_STEREO | cf::ZLIB, Crypt::No),
+                // a stored single-unit file whose block entry gets COMPRESS set afterwards: compressed size ==
+                // file size, which the reader returns raw (the builder never sets COMPRESS on such a unit)
+                F { or_flags: FLAG_COMPRESS, ..f("rawflag.dat", noise(180, 45), 0, Crypt::No) },
+                // Method byte 0x01 (Huffman) alone. The crate has no Huffman encoder, so the unit is hand-made
+                // (method byte, tree type 7, code bits) and handed to the builder as a stored file; the block
+                // entry then gets COMPRESS and the decoded size. The crate's decoder returns one byte per symbol
+                // until the file size is reached whatever the code bits say, so any bits give a readable file.
+                F { or_flags: FLAG_COMPRESS, set_fsize: Some(400), ..f("huffman.wav", huffman_unit(7, 90), 0, Crypt::No) },
             ],
             ..base
         },
@@ -227,11 +350,75 @@ fn spec(name: &str) -> Spec {
             ..base
         },
         "v1-userdata" => Spec {
-            userdata: true,
+            prefix: Prefix::UserData,
             files: vec![
                 f("big.bin", text(1900, 51), cf::ZLIB, Crypt::No),
                 f("small.txt", text(250, 52), cf::ZLIB, Crypt::No),
                 f("fix.bin", text(1250, 53), cf::ZLIB, Crypt::FixKey),
+            ],
+            ..base
+        },
+        // no (listfile): list() enumerates the hash table anonymously; the (attributes) file is an external
+        // one with all four arrays and an entry for itself
+        "v1-nolistfile" => Spec {
+            listfile: false,
+            attrs: Attrs::ExternalAll,
+            all_blocks: true,
+            files: vec![
+                f("big.bin", text(1600, 61), cf::ZLIB, Crypt::No),
+                f("small.txt", text(240, 62), cf::ZLIB, Crypt::No),
+                f("enc.bin", text(700, 63), cf::ZLIB, Crypt::Key),
+                f("stored.dat", noise(110, 64), 0, Crypt::No),
+            ],
+            ..base
+        },
+        // no (listfile), HET/BET present: list() enumerates the BET table; (attributes) as GenerateFull
+        "v4-nolistfile" => Spec {
+            ver: FormatVersion::V4,
+            fix_hetbet: true,
+            listfile: false,
+            attrs: Attrs::Full,
+            files: vec![
+                f("big.bin", text(1500, 65), cf::ZLIB, Crypt::No),
+                f("small.txt", text(230, 66), cf::ZLIB, Crypt::No),
+                f("fix.bin", text(800, 67), cf::ZLIB, Crypt::FixKey),
+                f("stored.dat", noise(95, 68), 0, Crypt::No),
+            ],
+            ..base
+        },
+        // the v4-hetbet archive with format_version 2: a V3 archive with a 208-byte header and V4 data
+        "v3-hdr208" => Spec { hdr_v3: true, ..spec("v4-hetbet") },
+        // V3 with compressed HET/BET bodies: no V4 sizes, the table sizes come from the table positions
+        // (with zlib and four blocks the BET body shrinks and is stored compressed, the HET body stays raw)
+        "v3-cmptables" => Spec {
+            ver: FormatVersion::V3,
+            fix_hetbet: true,
+            compress_tables: true,
+            files: vec![
+                f("big.bin", text(1250, 25), cf::ZLIB, Crypt::No),
+                f("small.txt", text(280, 26), cf::ZLIB, Crypt::No),
+                f("enc.bin", text(640, 27), cf::ZLIB, Crypt::Key),
+            ],
+            ..base
+        },
+        "v1-scan-offset" => Spec {
+            prefix: Prefix::Scan,
+            files: vec![
+                f("big.bin", text(1400, 71), cf::ZLIB, Crypt::No),
+                f("small.txt", text(220, 72), cf::ZLIB, Crypt::No),
+                f("fix.bin", text(600, 73), cf::ZLIB, Crypt::FixKey),
+            ],
+            ..base
+        },
+        "v2-hiblock-signed" => Spec {
+            ver: FormatVersion::V2,
+            hiblock: true,
+            sign: true,
+            all_blocks: true,
+            files: vec![
+                f("big.bin", text(1300, 74), cf::ZLIB, Crypt::No),
+                f("small.txt", text(210, 75), cf::ZLIB, Crypt::No),
+                f("(signature)", vec![0u8; 72], 0, Crypt::No),
             ],
             ..base
         },
@@ -264,21 +451,11 @@ fn plain(b: &[u8], start: usize, len: usize, key: u32) -> Vec<u8> {
     w.iter().flat_map(|x| x.to_le_bytes()).collect()
 }
 
-/// keystream bytes the crate's table/file encryption applies to the 1..3 bytes behind the last
-/// whole word (a single dword encrypted with key + number of whole words)
-fn tail_stream(nwords: usize, key: u32) -> [u8; 4] {
-    let mut z = [0u32];
-    encrypt_block(&mut z, key.wrapping_add(nwords as u32));
-    z[0].to_le_bytes()
-}
-
-/// plaintext of a whole encrypted table including the unaligned tail
+/// plaintext of a whole encrypted table; the `len % 4` bytes behind the last whole word are stored in the clear
+/// (the MPQ cipher works on whole dwords: ArchiveBuilder::encrypt_data and tables/common.rs leave them alone)
 fn plain_full(b: &[u8], start: usize, len: usize, key: u32) -> Vec<u8> {
     let mut p = plain(b, start, len, key);
-    let ks = tail_stream(len / 4, key);
-    for k in 0..len % 4 {
-        p.push(b[start + (len & !3) + k] ^ ks[k]);
-    }
+    p.extend_from_slice(&b[start + (len & !3)..start + len]);
     p
 }
 
@@ -289,10 +466,7 @@ fn store_encrypted(b: &mut [u8], start: usize, plain: &[u8], key: u32) {
     for (i, x) in w.iter().enumerate() {
         b[start + 4 * i..start + 4 * i + 4].copy_from_slice(&x.to_le_bytes());
     }
-    let ks = tail_stream(whole / 4, key);
-    for k in 0..plain.len() % 4 {
-        b[start + whole + k] = plain[whole + k] ^ ks[k];
-    }
+    b[start + whole..start + plain.len()].copy_from_slice(&plain[whole..]);
 }
 
 fn scratch_path(name: &str) -> std::path::PathBuf {
@@ -302,26 +476,78 @@ fn scratch_path(name: &str) -> std::path::PathBuf {
     std::path::PathBuf::from(base).join(format!("c05-mpqseed-{}-{}-{}.mpq", std::process::id(), t, name))
 }
 
+/// CRC-32 (IEEE) as stored in the (attributes) file
+fn crc32(d: &[u8]) -> u32 {
+    let mut c = 0xFFFF_FFFFu32;
+    for &b in d {
+        c ^= b as u32;
+        for _ in 0..8 {
+            c = if c & 1 != 0 { (c >> 1) ^ 0xEDB8_8320 } else { c >> 1 };
+        }
+    }
+    !c
+}
+
+/// a fixed FILETIME (2009-ish) per block: the builder stamps the current time, seeds must not depend on it
+fn filetime(i: usize) -> u64 {
+    0x01C9_8000_0000_0000 + 0x1_0000_0000 * i as u64
+}
+
+/// names of the blocks in block-table order: the files, then (listfile), then (attributes)
+fn block_names(sp: &Spec) -> Vec<String> {
+    let mut v: Vec<String> = sp.files.iter().map(|f| f.name.to_string()).collect();
+    if sp.listfile {
+        v.push("(listfile)".into());
+    }
+    if sp.attrs != Attrs::No {
+        v.push("(attributes)".into());
+    }
+    v
+}
+
 fn build_bytes(name: &str, sp: &Spec) -> Vec<u8> {
     let mut b = ArchiveBuilder::new()
         .version(sp.ver)
         .block_size(sp.shift)
-        .listfile_option(ListfileOption::Generate)
-        .compress_tables(sp.compress_tables);
-    if sp.attrs {
-        b = b.attributes_option(AttributesOption::GenerateCrc32);
-    } else {
-        b = b.attributes_option(AttributesOption::None);
-    }
+        .listfile_option(if sp.listfile { ListfileOption::Generate } else { ListfileOption::None })
+        .compress_tables(sp.compress_tables)
+        .table_compression(sp.table_comp);
+    let p = scratch_path(name);
+    let ext = p.with_extension("attributes");
+    b = match sp.attrs {
+        Attrs::No => b.attributes_option(AttributesOption::None),
+        Attrs::Crc => b.attributes_option(AttributesOption::GenerateCrc32),
+        Attrs::Full => b.attributes_option(AttributesOption::GenerateFull),
+        Attrs::ExternalAll => {
+            // written by the crate's own serializer; one entry per block, the last one for (attributes) itself
+            let n = block_names(sp).len();
+            let file_attributes: Vec<FileAttributes> = (0..n)
+                .map(|i| {
+                    let d: &[u8] = sp.files.get(i).map(|f| f.data.as_slice()).unwrap_or(&[]);
+                    FileAttributes {
+                        crc32: Some(if i < sp.files.len() { crc32(d) } else { 0 }),
+                        filetime: Some(filetime(i)),
+                        md5: Some(if i < sp.files.len() { wverif_common::md5_raw(d) } else { [0u8; 16] }),
+                        is_patch: Some(i == 1),
+                    }
+                })
+                .collect();
+            let at = Attributes { version: Attributes::EXPECTED_VERSION, flags: AttributeFlags::new(AttributeFlags::ALL), file_attributes, crc32: None, md5: None, filetime: None };
+            let data = at.to_bytes().unwrap_or_else(|e| wverif_common::tool_error(&format!("mpq: Attributes::to_bytes: {e:?}")));
+            std::fs::write(&ext, data).unwrap_or_else(|e| wverif_common::tool_error(&format!("mpq: write {ext:?}: {e}")));
+            b.attributes_option(AttributesOption::External(ext.clone()))
+        }
+    };
     for fl in &sp.files {
         b = match fl.crypt {
-            Crypt::No => b.add_file_data_with_options(fl.data.clone(), fl.name, fl.comp, false, 0),
-            Crypt::Key => b.add_file_data_with_encryption(fl.data.clone(), fl.name, fl.comp, false, 0),
-            Crypt::FixKey => b.add_file_data_with_encryption(fl.data.clone(), fl.name, fl.comp, true, 0),
+            Crypt::No => b.add_file_data_with_options(fl.data.clone(), fl.name, fl.comp, false, fl.locale),
+            Crypt::Key => b.add_file_data_with_encryption(fl.data.clone(), fl.name, fl.comp, false, fl.locale),
+            Crypt::FixKey => b.add_file_data_with_encryption(fl.data.clone(), fl.name, fl.comp, true, fl.locale),
         };
     }
-    let p = scratch_path(name);
-    if let Err(e) = b.build(&p) {
+    let r = b.build(&p);
+    let _ = std::fs::remove_file(&ext);
+    if let Err(e) = r {
         wverif_common::tool_error(&format!("mpq: ArchiveBuilder failed for seed {name}: {e:?}"));
     }
     let bytes = std::fs::read(&p).unwrap_or_else(|e| wverif_common::tool_error(&format!("mpq: read back {p:?}: {e}")));
@@ -371,21 +597,23 @@ pub fn build(name: &str) -> Seed {
     // on-disk sizes of the HET / BET tables (they are written back to back before the hash table)
     let het_size = bet_pos.saturating_sub(het_pos);
     let bet_size = hash_pos0.saturating_sub(bet_pos);
+    // a body is stored compressed exactly when it is shorter on disk than the extended header declares
+    let het_cmp = v >= 2 && het_size < 12 + r32(&bytes, het_pos + 8) as usize;
+    let bet_cmp = v >= 2 && bet_size < 12 + r32(&bytes, bet_pos + 8) as usize;
+    if sp.compress_tables && !bet_cmp && !het_cmp {
+        wverif_common::tool_error(&format!("mpq: seed {name}: compress_tables requested but both table bodies are stored raw"));
+    }
     if v >= 2 && sp.fix_hetbet {
         // the reader takes offset 52 as the BET and offset 60 as the HET position
         w64(&mut bytes, 52, bet_pos as u64);
         w64(&mut bytes, 60, het_pos as u64);
-        if !sp.compress_tables {
+        if !bet_cmp {
             // BET name hashes := the reader's hash function
             let mut pl = plain_full(&bytes, bet_pos + 12, bet_size - 12, block_key);
             let g = |i: usize| r32(&pl, 4 * i) as usize;
             let (file_count, entry_bits, hash_bits, flag_count) = (g(1), g(3), g(16), g(18));
             let ho = 76 + 4 * flag_count + (file_count * entry_bits).div_ceil(8);
-            let mut names: Vec<&str> = sp.files.iter().map(|f| f.name).collect();
-            names.push("(listfile)");
-            if sp.attrs {
-                names.push("(attributes)");
-            }
+            let names = block_names(&sp);
             if hash_bits != 64 || names.len() != file_count || ho + 8 * file_count > pl.len() {
                 wverif_common::tool_error(&format!("mpq: seed {name}: unexpected BET layout fc={file_count} eb={entry_bits} hb={hash_bits} flc={flag_count} ho={ho} pl={} names={}", pl.len(), names.len()));
             }
@@ -403,14 +631,103 @@ pub fn build(name: &str) -> Seed {
             bytes[192..208].copy_from_slice(&m);
         }
     }
-    let a = if sp.userdata { 512usize } else { 0 };
-    if sp.userdata {
+    if sp.hdr_v3 {
+        // The builder writes 208-byte headers only with format_version 3 (V4). Archives of the MoP era carry the
+        // same header under format_version 2 (V3); the header MD5 covers the version field.
+        bytes[12..14].copy_from_slice(&2u16.to_le_bytes());
+        let m = wverif_common::md5_raw(&bytes[..192]);
+        bytes[192..208].copy_from_slice(&m);
+    }
+    // block-entry surgery (flags the builder never combines) and, for GenerateFull, fixed time stamps
+    {
+        let bp = r32(&bytes, 20) as usize;
+        let bn = r32(&bytes, 28) as usize;
+        let mut pl = plain(&bytes, bp, 16 * bn, block_key);
+        let mut changed = false;
+        for (i, fl) in sp.files.iter().enumerate() {
+            if fl.or_flags != 0 {
+                let fw = r32(&pl, 16 * i + 12) | fl.or_flags;
+                pl[16 * i + 12..16 * i + 16].copy_from_slice(&fw.to_le_bytes());
+                changed = true;
+            }
+            if let Some(fs) = fl.set_fsize {
+                pl[16 * i + 8..16 * i + 12].copy_from_slice(&fs.to_le_bytes());
+                changed = true;
+            }
+        }
+        if changed {
+            if v >= 2 {
+                wverif_common::tool_error(&format!("mpq: seed {name}: block-entry surgery is only done on V1/V2 seeds (no BET copy, no MD5)"));
+            }
+            store_encrypted(&mut bytes, bp, &pl, block_key);
+        }
+        if sp.attrs == Attrs::Full {
+            // (attributes) is the last block, stored raw: version, flags, crc32[n], filetime[n], md5[n]
+            let n = bn - 1;
+            let ap = r32(&pl, 16 * n) as usize;
+            let asz = r32(&pl, 16 * n + 4) as usize;
+            if asz != 8 + 28 * n || r32(&bytes, ap) != 100 || r32(&bytes, ap + 4) != 7 {
+                wverif_common::tool_error(&format!("mpq: seed {name}: unexpected (attributes) layout size={asz} n={n}"));
+            }
+            for i in 0..n {
+                w64(&mut bytes, ap + 8 + 4 * n + 8 * i, filetime(i));
+            }
+        }
+    }
+    if sp.hiblock {
+        // Hand-made: the builder writes a hi-block table only when a file lies beyond 4 GiB. One u16 (zero) per
+        // block behind the block table. The reader only loads the table when 8 bytes per block follow its
+        // position (archive.rs: `block_table_size * 8`), so the table is followed by zero padding outside the
+        // archive proper.
+        let bn = r32(&bytes, 28) as usize;
+        let hp = bytes.len();
+        bytes.extend(std::iter::repeat(0u8).take(2 * bn));
+        w64(&mut bytes, 32, hp as u64);
+        let asz = bytes.len() as u32;
+        bytes[8..12].copy_from_slice(&asz.to_le_bytes());
+        bytes.extend(std::iter::repeat(0u8).take(6 * bn));
+    }
+    if sp.sign {
+        // weak signature over the finished archive (the 72-byte file itself counts as zeros), by the crate's
+        // own generator
+        let bp = r32(&bytes, 20) as usize;
+        let bn = r32(&bytes, 28) as usize;
+        let pl = plain(&bytes, bp, 16 * bn, block_key);
+        let i = sp.files.iter().position(|f| f.name == "(signature)").unwrap_or_else(|| wverif_common::tool_error("mpq: signed seed without (signature)"));
+        let (sp_pos, sp_len) = (r32(&pl, 16 * i) as usize, r32(&pl, 16 * i + 4) as usize);
+        if sp_len != 72 {
+            wverif_common::tool_error(&format!("mpq: seed {name}: (signature) block has {sp_len} bytes"));
+        }
+        let info = SignatureInfo::new_weak(0, r32(&bytes, 8) as u64, sp_pos as u64, sp_len as u64, Vec::new());
+        let sig = generate_weak_signature(std::io::Cursor::new(&bytes), &info)
+            .unwrap_or_else(|e| wverif_common::tool_error(&format!("mpq: generate_weak_signature: {e:?}")));
+        bytes[sp_pos..sp_pos + 72].copy_from_slice(&sig);
+    }
+    let a = match sp.prefix {
+        Prefix::No => 0usize,
+        Prefix::UserData => 512,
+        Prefix::Scan => 1024,
+    };
+    if sp.prefix == Prefix::UserData {
         let mut u = Vec::with_capacity(512 + bytes.len());
         u.extend_from_slice(b"MPQ\x1B");
         u.extend_from_slice(&496u32.to_le_bytes()); // user_data_size
         u.extend_from_slice(&512u32.to_le_bytes()); // header_offset
         u.extend_from_slice(&16u32.to_le_bytes()); // user_data_header_size
         u.extend_from_slice(&text(496, 99));
+        u.extend_from_slice(&bytes);
+        bytes = u;
+    }
+    if sp.prefix == Prefix::Scan {
+        // hand-made (the builder writes archives at offset 0 only): text, then a user data block at 0x200 whose
+        // header_offset (0x100 -> file offset 0x300) does not hit an archive header, then the archive at 0x400
+        let mut u = Vec::with_capacity(1024 + bytes.len());
+        u.extend_from_slice(&text(512, 97));
+        u.extend_from_slice(b"MPQ\x1B");
+        u.extend_from_slice(&240u32.to_le_bytes()); // user_data_size
+        u.extend_from_slice(&256u32.to_le_bytes()); // header_offset
+        u.extend_from_slice(&16u32.to_le_bytes()); // user_data_header_size
+        u.extend_from_slice(&text(496, 98));
         u.extend_from_slice(&bytes);
         bytes = u;
     }
@@ -434,7 +751,13 @@ pub fn build(name: &str) -> Seed {
 
     let mut s = Seed::new("mpq", name, bytes);
     let len = s.bytes.len();
-    if sp.userdata {
+    if sp.prefix == Prefix::Scan {
+        s.field_ex(512, 4, "tag", "stray.signature", 528, 1, None);
+        s.field_ex(516, 4, "bsize", "stray.user_data_size", 528, 1, None);
+        s.field_ex(520, 4, "offset", "stray.header_offset", 512, 1, None);
+        s.field_ex(524, 4, "bsize", "stray.user_data_header_size", 512, 1, None);
+    }
+    if sp.prefix == Prefix::UserData {
         s.field_ex(0, 4, "tag", "user.signature", 16, 1, None);
         s.field_ex(4, 4, "bsize", "user.user_data_size", 16, 1, None);
         s.field_ex(8, 4, "offset", "user.header_offset", 0, 1, None);
@@ -479,6 +802,14 @@ pub fn build(name: &str) -> Seed {
     if let Some(fr) = (0..hash_n).find(|i| !occupied.contains(i)) {
         pick.push(fr);
     }
+    // every entry of a name that exists under a non-neutral locale
+    for (bi, fl) in sp.files.iter().enumerate() {
+        if sp.files.iter().any(|g| g.name == fl.name && g.locale != 0) {
+            if let Some(h) = occupied.iter().find(|&&h| r32(&hash_plain, 16 * h + 12) as usize == bi) {
+                pick.push(*h);
+            }
+        }
+    }
     pick.sort();
     pick.dedup();
     for i in pick {
@@ -510,26 +841,43 @@ pub fn build(name: &str) -> Seed {
     }
 
     // per-file structures: sector offset tables and compression method bytes
-    let mut names: Vec<String> = sp.files.iter().map(|f| f.name.to_string()).collect();
-    names.push("(listfile)".into());
-    if sp.attrs {
-        names.push("(attributes)".into());
-    }
+    let mut names = block_names(&sp);
     let mut budget_sectored = 3; // files whose sector tables are listed
     let mut budget_single = 3;
-    for (i, nm) in names.iter().enumerate() {
+    for (i, real) in names.iter().enumerate() {
         if i >= blocks.len() {
             break;
         }
         let b = &blocks[i];
-        let special = nm.starts_with('(');
-        if special && nm == "(attributes)" {
+        // name used in field names (the locale is part of it when not neutral)
+        let nm = &sp.files.get(i).map(|f| f.display()).unwrap_or_else(|| real.clone());
+        let special = real.starts_with('(');
+        if special && real == "(attributes)" {
             s.field_ex(b.pos, 4, "index", "attr.version", b.pos + 8, 1, None);
             s.field_ex(b.pos + 4, 4, "index", "attr.flags", b.pos + 8, 4, None);
+            if matches!(sp.attrs, Attrs::Full | Attrs::ExternalAll) && b.flags & (FLAG_COMPRESS | FLAG_ENCRYPTED) == 0 {
+                // the arrays behind the header, in file order; n entries each (the builder's own generator leaves
+                // the (attributes) block itself out, the external file has it)
+                let n = if sp.attrs == Attrs::ExternalAll { block_n } else { block_n - 1 };
+                let fw = r32(&s.bytes, b.pos + 4);
+                let end = b.pos + b.csize;
+                let mut o = b.pos + 8;
+                for (bit, w, nm) in [(1u32, 4usize, "crc32"), (2, 8, "filetime"), (4, 16, "md5")] {
+                    if fw & bit != 0 && o + w * n <= end {
+                        for k in [0, n - 1] {
+                            s.field_ex(o + w * k, w.min(8) as u8, "index", format!("attr.{nm}[{k}]"), o + w * n, 1, None);
+                        }
+                        o += w * n;
+                    }
+                }
+                if fw & 8 != 0 && o < end {
+                    s.field_ex(o, 1, "index", "attr.patch_bits[0]", end, 1, None);
+                }
+            }
             continue;
         }
         let key = if b.flags & FLAG_ENCRYPTED != 0 {
-            let k = hash_string(nm, hash_type::FILE_KEY);
+            let k = hash_string(real, hash_type::FILE_KEY);
             if b.flags & FLAG_FIX_KEY != 0 {
                 k.wrapping_add((b.pos - a) as u32) ^ b.fsize as u32
             } else {
@@ -552,6 +900,10 @@ pub fn build(name: &str) -> Seed {
                 continue;
             }
             s.field_ex(b.pos, 1, "index", format!("file[{nm}].method"), b.pos + 1, 1, enc);
+            if key == 0 && s.bytes[b.pos] == cf::HUFFMAN && b.csize > 2 {
+                // the tree selector of a Huffman unit
+                s.field_ex(b.pos + 1, 1, "index", format!("file[{nm}].huffman_tree"), b.pos + 2, 1, None);
+            }
             if key == 0 {
                 adpcm_site(&mut s, format!("file[{nm}]"), b.pos, b.pos + b.csize);
             }
@@ -606,12 +958,10 @@ pub fn build(name: &str) -> Seed {
         s.field_ex(bp, 4, "tag", "bet.signature", bp + 12, 1, None);
         s.field_ex(bp + 4, 4, "index", "bet.version", bp + 12, 1, None);
         s.field_ex(bp + 8, 4, "bsize", "bet.data_size", bp + 12, 1, None);
-        if sp.compress_tables {
-            // the table bodies are compressed, then encrypted: only the method byte is addressable
+        // a compressed body is compressed, then encrypted: only its method byte is addressable
+        if het_cmp {
             let he = Enc { start: hp + 12, len: (het_size - 12) & !3, key: hash_key };
-            let be = Enc { start: bp + 12, len: (bet_size - 12) & !3, key: block_key };
             s.field_ex(hp + 12, 1, "index", "het.method", hp + 13, 1, Some(he));
-            s.field_ex(bp + 12, 1, "index", "bet.method", bp + 13, 1, Some(be));
         } else if sp.fix_hetbet {
             // (as built, the tables never load: their inner fields would be dead weight)
             let he = Enc { start: hp + 12, len: (het_size - 12) & !3, key: hash_key };
@@ -638,7 +988,11 @@ pub fn build(name: &str) -> Seed {
             if 32 + het_entries < hpl.len() {
                 s.field_ex(hd + 32 + het_entries, 1, "index", "het.index_bits[0]", hd + 32 + het_entries, 1, Some(he.clone()));
             }
-
+        }
+        if bet_cmp {
+            let be = Enc { start: bp + 12, len: (bet_size - 12) & !3, key: block_key };
+            s.field_ex(bp + 12, 1, "index", "bet.method", bp + 13, 1, Some(be));
+        } else if sp.fix_hetbet {
             let be = Enc { start: bp + 12, len: (bet_size - 12) & !3, key: block_key };
             let bd = bp + 12;
             let bpl = plain(&s.bytes, bd, bet_size - 12, block_key);
@@ -682,7 +1036,13 @@ pub fn build(name: &str) -> Seed {
     }
 
     names.push(ABSENT.to_string());
-    s.aux = Aux::Names(names);
+    let mut uniq: Vec<String> = Vec::new();
+    for n in names {
+        if !uniq.contains(&n) {
+            uniq.push(n);
+        }
+    }
+    s.aux = Aux::Names(uniq);
     s
 }
 
